@@ -235,6 +235,36 @@ func runC16(c *c16Case) (v verdict, sig string, err error) {
 	v.label(c.OtherUDPSize > 0 && c.OtherUDPSize < c.UDPSize, "other-protocols-smaller-udp-size")
 	on := drvRequest{Op: "pipeline", Proto: c.Proto, Workers: c.Workers, UDPSize: c.UDPSize, OtherUDPSize: c.OtherUDPSize, ResetCache: true,
 		Mirror: true, MirrorDst: target, MirrorPort: c.Port, Phases: [][]drvDatagram{phase}}
+	// a second phase in the same request draws its receive buffers from the pool the first phase's mirror
+	// copies were returned to: 24 self-contained messages, longer than most of the first phase's payloads
+	var later []wire.Hex
+	if c.Proto == "ipfix" {
+		for i := 0; i < 24; i++ {
+			tp := wire.Template{ID: uint16(61000 + i), Fields: []wire.Field{{ID: 8, Len: 4, Type: wire.TIPv4}, {ID: 12, Len: 4, Type: wire.TIPv4}, {ID: 1, Len: 8, Type: wire.TUint64}, {ID: 2, Len: 8, Type: wire.TUint64}}}
+			m := wire.Msg{Proto: "ipfix", Seq: uint32(95000 + i), Time: 1700000001, Domain: 2, Sets: []wire.Set{{Kind: "tpl", Tpls: []wire.Template{tp}},
+				{Kind: "data", Tpl: &tp, Recs: []wire.Record{{Vals: []wire.Hex{{10, 8, 0, byte(i)}, {10, 9, 0, byte(i)}, {0, 0, 0, 0, 0, 0, 2, byte(i)}, {0, 0, 0, 0, 0, 0, 3, byte(i)}}}}}}}
+			b := m.Bytes()
+			if len(b) <= c.UDPSize {
+				later = append(later, b)
+			}
+		}
+	} else {
+		for i := 0; i < 24; i++ {
+			d := wire.SFDatagram{Agent: []byte{10, 0, 1, byte(i)}, Seq: uint32(95000 + i), Samples: []wire.SFSample{{Kind: "counter", Counter: &wire.SFCounter{Seq: uint32(i), Recs: []wire.SFCounterRec{{Kind: "proc", Vals: []uint64{1, 2, 3, 4, uint64(i)}}, {Kind: "vlan", Vals: []uint64{uint64(i), 2, 3, 4, 5, 6}}}}}}}
+			b := d.Bytes()
+			if len(b) <= c.UDPSize {
+				later = append(later, b)
+			}
+		}
+	}
+	var phase2 []drvDatagram
+	for i, p := range later {
+		phase2 = append(phase2, drvDatagram{Addr: hex.EncodeToString(c.Exporter), Port: 5000 + i, Data: hex.EncodeToString(p)})
+	}
+	if len(phase2) > 0 {
+		on.Phases = append(on.Phases, phase2)
+		payloads = append(payloads, later...)
+	}
 	off := on
 	off.Mirror = false
 
@@ -258,14 +288,24 @@ func runC16(c *c16Case) (v verdict, sig string, err error) {
 	if respOn.Mirror != "" {
 		return v, "mirror-error", fmt.Errorf("the mirror function stopped: %s", respOn.Mirror)
 	}
-	if c.Flood == 0 && respOn.Phases[0].Mirrored != len(payloads) {
-		return v, "not-queued", fmt.Errorf("%d of %d datagrams were queued for mirroring", respOn.Phases[0].Mirrored, len(payloads))
+	if len(respOn.Phases) != len(on.Phases) || len(respOff.Phases) != len(on.Phases) {
+		return v, "", fmt.Errorf("harness: driver answered %d/%d phases for %d", len(respOn.Phases), len(respOff.Phases), len(on.Phases))
 	}
-	pkts := cap.collect(c.Target, c.Port, respOn.Phases[0].Mirrored, 3*time.Second)
+	mirrored := 0
+	var pubOn, pubOff []string
+	for i := range respOn.Phases {
+		mirrored += respOn.Phases[i].Mirrored
+		pubOn = append(pubOn, respOn.Phases[i].Published...)
+		pubOff = append(pubOff, respOff.Phases[i].Published...)
+	}
+	if c.Flood == 0 && mirrored != len(payloads) {
+		return v, "not-queued", fmt.Errorf("%d of %d datagrams were queued for mirroring", mirrored, len(payloads))
+	}
+	pkts := cap.collect(c.Target, c.Port, mirrored, 3*time.Second)
 
 	// mirroring never changes what is published
-	a := append([]string{}, respOn.Phases[0].Published...)
-	b := append([]string{}, respOff.Phases[0].Published...)
+	a := append([]string{}, pubOn...)
+	b := append([]string{}, pubOff...)
 	if c.Proto == "sflow" {
 		for i := range a {
 			x, _ := hex.DecodeString(a[i])
@@ -313,8 +353,8 @@ func runC16(c *c16Case) (v verdict, sig string, err error) {
 	}
 	if c.Flood > 0 {
 		// the mirror queue overflowed by construction: only what was queued can be re-emitted
-		if len(pkts) != respOn.Phases[0].Mirrored {
-			return v, "missing", fmt.Errorf("%d datagrams were queued for mirroring, %d packets were emitted", respOn.Phases[0].Mirrored, len(pkts))
+		if len(pkts) != mirrored {
+			return v, "missing", fmt.Errorf("%d datagrams were queued for mirroring, %d packets were emitted", mirrored, len(pkts))
 		}
 		return v, "", nil
 	}
